@@ -57,7 +57,8 @@ type kvElection struct {
 	ctx    context.Context
 	cancel context.CancelFunc
 
-	// termCancel cancels the context handed to OnPromote for the current term.
+	// termCancel cancels the context of the current term (OnPromote, heartbeat
+	// and validation loops).
 	// Set by becomeLeader, called when the term ends; guarded by mu.
 	termCancel context.CancelFunc
 
@@ -395,8 +396,13 @@ func (e *kvElection) becomeLeader(token string, rev uint64) bool {
 		return false
 	}
 
-	// Context of this term, handed to OnPromote: cancelled when the term ends,
-	// by demotion (enterFollowerState) or because the election stops (parent).
+	// Context of this term, handed to OnPromote and to the heartbeat and
+	// validation loops: cancelled when the term ends, by demotion
+	// (enterFollowerState) or because the election stops (parent). A loop that
+	// ran on the election's context instead would outlive its term and, after
+	// a quick re-election, run next to the new term's loop: both would count
+	// health failures and refresh the record, and the loser of two colliding
+	// refreshes would demote a healthy leader.
 	// The goroutines started below use this copy: e.ctx is guarded by mu and may
 	// be replaced or cleared once the mutex is released.
 	ctx := e.ctx
@@ -439,13 +445,13 @@ func (e *kvElection) becomeLeader(token string, rev uint64) bool {
 	e.wg.Add(1)
 	go func() {
 		defer e.wg.Done()
-		e.heartbeatLoop(ctx)
+		e.heartbeatLoop(termCtx)
 	}()
 
 	e.wg.Add(1)
 	go func() {
 		defer e.wg.Done()
-		e.validationLoop(ctx)
+		e.validationLoop(termCtx)
 	}()
 
 	// Copy the callback while the mutex is held: OnPromote() may replace it
